@@ -49,5 +49,9 @@ check("C08", "exploration",
       "Per-source before/after diff of 1-3 bound history sources (in-memory, file-backed, a Write-counting harness source) across 1-4 consecutive Readline calls with 7 accept variants, 5 history-size settings and blank/duplicate/padded/Unicode/multi-line lines: exactly one append of the trimmed line for ordinary accepts unless blank or duplicate of that source's newest entry, unchanged otherwise, limit honoured only from N entries on.",
       TCB, "runtime monitoring: conservation check (before/after diff, Write-call count) on bound history sources", "DESIGN.md 5 C08")
 
+check("C09", "exploration",
+      "Reference position model vs the buffer at every wait for walks over previous/next/beginning/end-of-history and up/down-line-or-history (both ends, restoration of the in-progress text), membership oracles for prefix / substring / incremental searches (buffer in {typed text} U {entries matching the documented search text}), abort restores the text, and source contents unchanged, over 9 history shapes incl. empty, one-entry, duplicates, multi-line, metacharacters, Unicode.",
+      TCB, "runtime monitoring: reference model + membership oracles at hooked wait points", "DESIGN.md 5 C09")
+
 for _p in ["C03","C04","C05","C06","C07","C08","C09","C10","C11","C12","C13","C14","C15","C16","C17","C18","C19","C20"]:
     NOT_YET[_p] = "check under construction in this session (runtime monitor designed in DESIGN.md section 5, not yet registered)"
